@@ -88,6 +88,8 @@ def check_stream(cfg, stream: bytes, spec, ctx, states: set | None = None) -> bo
         ctx.count(f"cfg{int(cfg[0])}{int(cfg[1])}_" + ("valid" if obs["valid"] else "invalid"))
         for sig, msg in hdlc_mon.check_frame_exact(obs):
             ctx.violation(sig, msg, case)
+        if obs.get("changed_later"):
+            ctx.violation("C01:frame-changed-after-return", f"frame {obs['bytes'].hex()[:80]} answered differently (octets/validity/payload) after later read() calls", case)
         if obs["valid"] and not obs["payload"]:
             ctx.count("valid_header_only_frames")
     octs = [o["bytes"] for o in frames]
